@@ -13,6 +13,8 @@ def feature_sig(case):
         f.append("10bit")
     if g("cfg.is_16bit_pipeline"):
         f.append("16bitpipe")
+        if g("bitdepth", 8) == 8 and g("width", 64) % 64 and not g("cfg.disable_dlf_flag"):
+            f.append("pipe16-8bit-partial-sb-column")  # 8-bit input, 16-bit pipeline, last SB column partial, deblocking on
     rc = g("cfg.rate_control_mode")
     if rc:
         f.append("rc%d" % rc)
